@@ -19,6 +19,8 @@ BOUNDS = {
     "k_enum_msg_types": "<= 30 types (all that the encoder accepts): complete",
     "k_enum_vendor_field": "<= 7 bytes (the documented shape): complete",
     "k_encode_keeps_state": "four representative encoders, fixed-size buffers",
+    "k_pec_matches_crc8": "bounded: data length <= 6 bytes (cross-check of the linked dependency; the all-lengths proof is Verus's on the expansion)",
+    "k_pec_matches_crc8_long": "bounded: data length <= 16 bytes",
 }
 
 
